@@ -129,3 +129,63 @@ def _origin_has(ctx, fn, v, target, depth=0, seen=None):
         if info and info["kind"] == "call":
             return _origin_has(ctx, fn, info["pre"][v[2]], target, depth + 1, seen)
     return False
+
+
+ADDRESS_SCANS = ("pocket_db::Store::remove_parameterized_replaceable", "pocket_db::Store::find_parameterized_replaceable_event_inner",
+                 "pocket_db::Store::remove_replaceable", "pocket_db::Store::find_replaceable_event_inner")
+
+
+def address_scans_author_scoped(ctx, s):
+    """an address is (kind, author, d): every scan that looks for / removes the events at an address is keyed by the
+    address's author (the index prefix then confines it to that author), or compares the fetched event's pubkey with it.
+    A scan keyed by kind and tag alone reaches other authors' events with the same kind and d."""
+    for name in ADDRESS_SCANS:
+        if name not in ctx.F.by_nice:
+            continue
+        fn = ctx.fn(name)
+        an = ctx.E.an(fn)
+        ctx.functions.add(fn.path)
+        scans = [(b, i) for b, i in an.calls() if s.nice(i["callee"] or "").startswith("pocket_db::Lmdb::") and
+                 s.nice(i["callee"] or "").endswith("_iter")]
+        # what denotes the author: a Pubkey-typed parameter, or the author field of an Addr parameter
+        def is_author(v):
+            if v[0] == "param" and "Pubkey" in fn.locals[v[1]]["ty"]["s"]:
+                return True
+            if v[0] in ("init", "proj", "field", "ref", "byref", "deref"):
+                # addr.author: field `author` of the Addr the function was given
+                x = v
+                fld = None
+                for _ in range(6):
+                    if x[0] == "field":
+                        fld = x[2]
+                        x = x[1]
+                    elif x[0] == "proj" and x[2][0] == "f":
+                        fld = x[2][1]
+                        x = x[1]
+                    elif x[0] in ("init", "ref", "byref", "deref") and isinstance(x[1], tuple):
+                        x = x[1]
+                    else:
+                        break
+                if x[0] == "param" and "Addr" in fn.locals[x[1]]["ty"]["s"] and fld is not None:
+                    adt = ctx.F.adts.get("pocket_types::addr::Addr")
+                    if adt and fld < len(adt["variants"][0]["fields"]) and adt["variants"][0]["fields"][fld]["n"] == "author":
+                        return True
+            return False
+        for b, info in scans:
+            keyed = any(contains_value(a, is_author) for a in info["args"] + [p for p in info["pre"] if p is not None])
+            compared = False
+            if not keyed:
+                for node in an.edge_cond:
+                    for f in s.edge_new_facts(fn, node):
+                        if f[0] in ("true", "false") and f[1][0] == "call" and f[1][1].rsplit("::", 1)[-1] in ("eq", "ne"):
+                            equal = (f[1][1].rsplit("::", 1)[-1] == "eq") == (f[0] == "true")
+                            if equal and contains_value(f[1], lambda x: x[0] == "call" and x[1].endswith("::pubkey")) and \
+                                    contains_value(f[1], is_author):
+                                compared = True
+            itname = s.nice(info["callee"]).split("::")[-1]
+            ok = keyed or compared
+            s.add("S-RECHECK", fn, "address-scan-author-scoped", itname, info["sp"], PROVED if ok else VIOLATION,
+                  "the scan is keyed by the address's author" if keyed else
+                  ("the fetched event's pubkey is compared with the address's author" if compared else
+                   "the events at an address are looked up through %s, which is not keyed by the address's author, and the author is "
+                   "not compared afterwards: another author's event with the same kind and d is treated as this address's" % itname), b)
